@@ -133,8 +133,8 @@ CLAIMS["C16"] = (
     ARB_NOTE + " Also proved for every history: no report the controller derives names an object that is of a foreign class at that moment (C16_reports_never_name_foreign). Controller level (real LoadBalancerController.sync, production constructor, fake clientsets): recorded Events and status writes never name a foreign object; every event is offered to the real informer handler (a class change must be passed on); the real OnStartedLeading callback runs at the end of every history with Policies of own/foreign class present. F04 and F70 repaired. Not covered: the -weight-changes-dynamic-reload informer-side path.", "DESIGN.md 7 C16")
 
 CLAIMS["C05"] = (
-    'Rocq theorems over all histories (delta suppression of problems is sound: every standing problem was sent and is the last one sent about its object; problem sets are functions of the object set; re-sync is silent) + the accumulated-report specification evaluated in Rocq at two levels: on the real change/problem lists, and on the Events recorded by the real LoadBalancerController.sync',
-    "Machine-checked proof (no axioms) of the soundness of delta suppression for every history. The full invariant C05_truthful (active <=> last report is a success, for every known object after every event; statement in Properties/C05.v) is not yet proved (partial): it is decided on every run by the Rocq kernel evaluating it on the implementation's own change/problem lists of every generated history, and again on the Events that the real controller records for the same histories (the transcription of processChanges/processProblems is compared with those Events on every step; the validation error of the processed object must appear in an Event about it).",
+    'Rocq theorem over all histories: after every history the judge `truthful` (the function evaluated at run time on the implementation\'s reports) accepts the accumulated reports of every known Ingress, master, minion, VirtualServer, VirtualServerRoute and TransportServer, valid or invalid (C05_truthful_partial, one verdict for minions left open); the validation error of the processed object is reported in the step, for every event in every state; delta suppression sound + the same specification evaluated in Rocq at two levels: on the real change/problem lists, and on the Events recorded by the real LoadBalancerController.sync',
+    "Machine-checked proof (no axioms, ~2700 lines) that for EVERY history obeying what the API server and the validators guarantee (generation moves with the spec, UIDs not reused, a master has one host, a minion a path, a VirtualServer a host, a route a UID, passthrough TransportServers only valid when passthrough is on; cert-manager conversion off), after every event and for every object the cluster knows: applied (active resource, attached minion, attached route) => the most recent accumulated report is a success; not applied or invalid => it is a rejection, warning or problem - also across delete/re-create with a new UID, squashed batches, GlobalConfiguration events and problems that go and come back. Left open (partial): verdict 3 (an attached minion serving no path was told 'success' without the warning) and the cert-manager corner; both, and the tie of the model to the code, are decided on every run by the Rocq kernel evaluating the same judge on the implementation's own change/problem lists of every generated history, and again on the Events and status writes that the real controller records for the same histories.",
     ARB_NOTE + " Controller level: production constructor, fake clientsets, harness-filled informer stores, fake NGINX manager; status-subresource writes are recorded but only Events are judged. Reports are tied to object incarnations (a delete or a UID change forgets them); whether a minion serves a path is decided from the object set; every event is offered to the real informer handler (plain and tombstone deletes). F72 and F73 repaired. Converted cert-manager challenge Ingresses are excluded.", "DESIGN.md 7 C05")
 
 CLAIMS["C17"] = (
